@@ -11,7 +11,7 @@ import (
 )
 
 func (e *Engine) newUnit(name string) *Unit {
-	return &Unit{eng: e, tc: e.tcProto, name: name, decl: map[string]bool{}}
+	return &Unit{eng: e, tc: e.tcProto, name: name, decl: map[string]bool{}, nonNil: map[string]bool{}}
 }
 
 func (e *Engine) findFunc(key string) *ssa.Function {
